@@ -167,3 +167,24 @@ def names_assigned_from(f: Func, pred: Callable[[ast.AST], bool]) -> Set[str]:
 
 def is_name_in(e: Optional[ast.AST], names: Iterable[str]) -> bool:
     return isinstance(e, ast.Name) and e.id in set(names)
+
+
+def loop_exits(loop: ast.For) -> List[ast.stmt]:
+    """break statements belonging to this loop and return statements inside it (nested defs excluded)."""
+    out: List[ast.stmt] = []
+
+    def rec(stmts: List[ast.stmt], own: bool) -> None:
+        for st in stmts:
+            if isinstance(st, (ast.FunctionDef, ast.AsyncFunctionDef, ast.ClassDef)):
+                continue
+            if isinstance(st, ast.Return) or (own and isinstance(st, ast.Break)):
+                out.append(st)
+            inner_own = own and not isinstance(st, (ast.For, ast.AsyncFor, ast.While))
+            for fld in ('body', 'orelse', 'finalbody'):
+                sub = getattr(st, fld, None)
+                if isinstance(sub, list) and sub and isinstance(sub[0], ast.stmt):
+                    rec(sub, own if fld == 'orelse' and not isinstance(st, ast.If) and not isinstance(st, ast.Try) else inner_own)
+            for h in getattr(st, 'handlers', []) or []:
+                rec(h.body, inner_own)
+    rec(loop.body, True)
+    return out
